@@ -182,14 +182,14 @@ def check(ctx):
                "Park::subscribe records the deadline when arming and re-checks it after publishing the coroutine (a timer that fired in between found the slot empty)" if okd else
                "Park::subscribe arms the timer before publishing the coroutine and has no deadline re-check after the store: a subscriber stalled ≥ timeout loses the timeout for good", f.where())
     shared.park_deadline_sampled_before_arm(ctx)
+    shared.check_cancel_consumes(ctx)
+    shared.no_panicking_instant_arithmetic(ctx)
     shared.no_nested_run_under_guard(ctx)
     ctx.who_may_call(r"generator::(gen_impl|yield_)::co_set_para|generator::co_set_para", {"may::yield_now::yield_with"},
                      "self-injection", "only yield_with's cancelled short-circuit injects a result into the running coroutine")
     ctx.guarded("may::yield_now::yield_with", Call(r"generator::(\w+::)*co_set_para"), call_true(re.escape(C) + "::is_canceled"),
                 "canceled-only-if-canceled", "yield_with injects Canceled only behind `is_canceled()`", pred_label="edge `is_canceled()` is true")
-    # kinds injected
-    for fid, kind in (("may::io::sys::timeout_handler", "TimedOut"),):
-        pass
+    shared.injected_kinds(ctx)
     # every resumer obtains the coroutine by take() from a shared slot: the slot's API admits no second owner
     ms = set()
     for im in ctx.prog.impls:
